@@ -323,6 +323,7 @@ func genC14(g *Gen) {
 		g.do(Step{Op: "ReadJSON", Recv: -1, Doc: toBS(d), HasOrder: true, ColOrder: bsList([]string{"b", "a"})})
 		g.end()
 	}
+	g.jsonEveryByte()
 }
 
 // ---------------------------------------------------------------- C12
@@ -1009,5 +1010,49 @@ func (g *Gen) sizeSweep(format string) {
 				g.end()
 			}
 		}
+	}
+}
+
+// jsonEveryByte: the escaping rules byte by byte, completely - every byte value 0x00..0xFF as a cell of its own
+// and between two letters (string and enum column), and every control byte, quote, backslash, DEL, a lone
+// continuation byte and 0xFF inside a column name. Written by ToJSON, read back by ReadJSON.
+func (g *Gen) jsonEveryByte() {
+	for lo := 0; lo < 256; lo += 64 {
+		one, mid := make([]*BS, 64), make([]*BS, 64)
+		pos := make([]int64, 64)
+		for i := range one {
+			b := string([]byte{byte(lo + i)})
+			one[i], mid[i], pos[i] = bsp(b), bsp("a"+b+"z"), int64(lo+i)
+		}
+		g.begin("json every byte")
+		f := g.do(Step{Op: "New", Recv: -1, HasOrder: true, ColOrder: bsList([]string{"S", "M", "E", "P"}), HasEnums: true,
+			Enums: []EnumDecl{{Name: toBS("E"), Vals: nil}},
+			Data: []ColData{{Name: toBS("S"), Kind: "string", Strs: one}, {Name: toBS("M"), Kind: "string", Strs: mid}, {Name: toBS("E"), Kind: "string", Strs: mid},
+				{Name: toBS("P"), Kind: "int", Ints: pos}}})
+		g.do(Step{Op: "ToJSON", Recv: f})
+		g.do(Step{Op: "ReadJSON", Other: f + 1, Reads: g.readSchedule(0)})
+		g.end()
+	}
+	special := []byte{}
+	for b := 0; b < 32; b++ {
+		special = append(special, byte(b))
+	}
+	special = append(special, '"', '\\', '/', 0x7f, 0x80, 0xff)
+	for i := 0; i < len(special); i += 6 {
+		j := i + 6
+		if j > len(special) {
+			j = len(special)
+		}
+		st := Step{Op: "New", Recv: -1, HasOrder: true}
+		for k, b := range special[i:j] {
+			name := "n" + string([]byte{b}) + string(rune('a'+k))
+			st.ColOrder = append(st.ColOrder, toBS(name))
+			st.Data = append(st.Data, ColData{Name: toBS(name), Kind: "int", Ints: []int64{int64(b), int64(k)}})
+		}
+		g.begin("json every byte in names")
+		f := g.do(st)
+		g.do(Step{Op: "ToJSON", Recv: f})
+		g.do(Step{Op: "ReadJSON", Other: f + 1, Reads: g.readSchedule(0)})
+		g.end()
 	}
 }
